@@ -19,7 +19,9 @@ RULE = ('cases = well-formed chart with 0-2 preconditions/postconditions/invaria
         '(quick: <=10 sampled k per run; thorough: every k) the run is repeated with that '
         'evaluation false: exactly Precondition/Postcondition/InvariantError must be raised by '
         'that execute_once, carrying that state/transition and condition, and the log must equal '
-        'the fault-free log truncated right after occurrence k. Non-trivial = a fault that is '
+        'the fault-free log truncated right after occurrence k; conditions also record sent(x) / '
+        'received(x); when the failing occurrence is an end-of-step state invariant the run is '
+        'continued and must go on exactly like the fault-free run. Non-trivial = a fault that is '
         'neither the first nor the last evaluation of its step; distinct = sha1(chart, history, k).')
 ASSUMPTIONS = ['the order of state invariants among different active states is not constrained',
                'idle()/after() are not used in these contracts (C13 covers them)']
@@ -57,23 +59,24 @@ def cond_table(spec):
     return tab
 
 
-def run(spec, ops, fail_at, shadow=False):
+def run(spec, ops, fail_at, shadow=False, go_on=False):
     """returns (records, raised) ; stops at the first ContractError.  With shadow=True a second
     interpreter over the same Statechart object (its own context, all conditions true) is stepped
     in between; it must not influence the first one."""
     from sismic.exceptions import ContractError
     box = {'n': 0}
 
-    def chk(cid, old):
+    def chk(cid, old, sr=None):
         box['n'] += 1
-        box['log'].append(('c', cid, old, box['n']))
+        box['log'].append(('c', cid, old, box['n'], sr))
         return box['n'] != fail_at
     d = Drive(spec, ignore_contract=False, ctx_extra={'chk': chk})
     box['log'] = d.ctx['log']
     sh = None
     if shadow:
-        sh = Drive(spec, sc=d.sc, ignore_contract=False, ctx_extra={'chk': lambda cid, old: True})
+        sh = Drive(spec, sc=d.sc, ignore_contract=False, ctx_extra={'chk': lambda cid, old, sr=None: True})
     recs = []
+    first = None
     ntr = len(spec['transitions'])
     for k, op in enumerate(ops):
         if sh is not None:
@@ -91,11 +94,14 @@ def run(spec, ops, fail_at, shadow=False):
             rec = d.step(op[1])
             recs.append(rec)
             if rec['exc'] and isinstance(rec['exc_obj'], ContractError):
-                return recs, rec, d
+                if go_on and first is None:
+                    first = (len(recs), rec)     # keep going: see oracle, continuation
+                    continue
+                return recs, first[1] if first else rec, d
             if rec['exc'] and rec['exc'] not in ('NonDeterminismError',
                                                  'ConflictingTransitionsError'):
-                return recs, rec, d
-    return recs, None, d
+                return recs, first[1] if first else rec, d
+    return recs, first[1] if first else None, d
 
 
 def expected_sequence(spec, tree, rec, last_en, viol, i):
@@ -279,7 +285,16 @@ def oracle(case):
         step_i, j, n_in_step, cid, n = evals[k - 1]
         assert n == k
         owner_kind, owner, ckind, code = tab[cid]
-        recs2, raised2, d2 = run(spec, case['ops'], fail_at=k, shadow=case.get('shadow', False))
+        # a failing invariant of an active state strikes at the very end of a macro step: the
+        # step itself is complete, so the run is continued and must go on like the fault-free one
+        go_on = owner_kind == 'state' and ckind == 'inv'
+        recs2, raised2, d2 = run(spec, case['ops'], fail_at=k, shadow=case.get('shadow', False),
+                                 go_on=go_on)
+        tail2 = []
+        if go_on and raised2 is not None:
+            cutpos = next((q for q, r_ in enumerate(recs2) if r_ is raised2), len(recs2) - 1)
+            tail2 = recs2[cutpos + 1:]
+            recs2 = recs2[:cutpos + 1]
         labels['faults injected'] = labels.get('faults injected', 0) + 1
         labels['fault on %s %s' % (owner_kind, ckind)] = labels.get(
             'fault on %s %s' % (owner_kind, ckind), 0) + 1
@@ -320,6 +335,27 @@ def oracle(case):
             viol.append({'prop': PROP, 'kind': 'code-ran-after-failure', 'step': step_i,
                          'detail': det})
             break
+        if go_on:
+            labels['continuations after an end-of-step invariant failure'] = labels.get(
+                'continuations after an end-of-step invariant failure', 0) + 1
+
+            def view(r_):
+                return {'result': r_['result'], 'exc': r_['exc'], 'config': r_['config_after'],
+                        'log': [list(x[:3]) + list(x[4:]) for x in r_['log']]}
+            want = [view(r_) for r_ in recs[step_i + 1:]]
+            got = [view(r_) for r_ in tail2]
+            if got != want:
+                q = next((q for q, (a_, b_) in enumerate(zip(got, want)) if a_ != b_),
+                         min(len(got), len(want)))
+                det['continuation_step'] = step_i + 1 + q
+                if q < len(got) and q < len(want):
+                    f = [k_ for k_ in got[q] if got[q][k_] != want[q][k_]]
+                    det['fields'] = f
+                    det['after_failure'] = {k_: got[q][k_] for k_ in f}
+                    det['fault_free'] = {k_: want[q][k_] for k_ in f}
+                viol.append({'prop': PROP, 'kind': 'run-differs-after-end-of-step-failure',
+                             'step': step_i, 'detail': det})
+                break
         if 0 < j < n_in_step - 1:
             keys.append(sha([h, k]))
     return {'violations': viol, 'labels': labels, 'keys': keys,
